@@ -228,7 +228,7 @@ for nm, nat in (("getinteger", False), ("getnat", True)):
          ([M("getnat-sign-unchecked", "    if (i < 0)\n        peg_panicf(b, \"expected non-negative integer, got %v\", x);", "", "negative")] if nat else []) +
          [M("getinteger-unchecked", "    if (!janet_checkint(x))\n        peg_panicf(b, \"expected integer, got %v\", x);", "", "non-number|exactly")],
          defines=["LEAF_getint"] + (["GETNAT"] if nat else []), cls="full-domain", link=["wrap.c", "util.c"], link_keep={"util.c": ["janet_checkint"]},
-         functions=["peg_getnat", "peg_getinteger"] if nat else ["peg_getinteger"], checks=STD + ["float-overflow-check", "nan-check"][:0],
+         functions=["peg_getnat", "peg_getinteger"] if nat else ["peg_getinteger"], 
          assumes=["janet_checkint (util.c) is linked with its real body", "compiled with -DJANET_NO_NANBOX"])
 leaf("arity", "peg_arity", "h_arity_real",
      "peg_arity / peg_fixarity return only for an argument count in range (so argv[k] is only read for k < argc)",
@@ -290,15 +290,20 @@ def c1(name, case, clause, mutants, skip_intmin=False, **kw):
 
 
 c1("prim", "prim",
-   "boolean / number / string / buffer patterns: the rule ([NCHAR n] / [NOTNCHAR -n] / literal) is emitted AT the entry count and that index is returned; cached in the ROOT scope under the same index; depth, scope and form restored; wf_peg clauses `room >= 2` / RULE_LITERAL",
+   "boolean / number patterns: the rule ([NCHAR n] / [NOTNCHAR -n]; true = [NCHAR 0], false = [NOTNCHAR 0]) is emitted AT the entry count and that index is returned; cached in the ROOT scope under the same index; depth, scope and form restored; wf_peg clause `room >= 2`",
    [M("prim-notnchar-not-negated", "                emit_1(r, RULE_NOTNCHAR, -n);", "                emit_1(r, RULE_NOTNCHAR, n);", "NOTNCHAR"),
     M("prim-cached-in-local-scope", "            while (which_grammar->proto)\n                which_grammar = which_grammar->proto;", "", "ROOT"),
-    M("prim-depth-not-restored", "    /* Increase depth again */\n    b->depth++;", "    /* Increase depth again */", "depth"),
-    M("prim-buffer-capacity-as-length", "            emit_bytes(b, RULE_LITERAL, buf->count, buf->data);", "            emit_bytes(b, RULE_LITERAL, buf->capacity, buf->data);", "literal")],
-   skip_intmin=True)
+    M("prim-depth-not-restored", "    /* Increase depth again */\n    b->depth++;", "    /* Increase depth again */", "depth")],
+   skip_intmin=True, defines=["-DVC_OWN_EXIT", "-DC1_prim", "-DC1_KIND_LO=0", "-DC1_KIND_HI=1"])
+c1("literal", "prim",
+   "string / buffer patterns: emit_bytes gets the string's (buffer's) own bytes and length (count, not capacity); the literal rule starts AT the entry count and that index is returned and cached in the root scope; wf_peg clause of RULE_LITERAL via the contract of emit_bytes",
+   [M("prim-buffer-capacity-as-length", "            emit_bytes(b, RULE_LITERAL, buf->count, buf->data);", "            emit_bytes(b, RULE_LITERAL, buf->capacity, buf->data);", "literal"),
+    M("prim-string-wrong-opcode", "            emit_bytes(b, RULE_LITERAL, len, str);", "            emit_bytes(b, RULE_SET, len, str);", "RULE_LITERAL")],
+   defines=["-DVC_OWN_EXIT", "-DC1_prim", "-DC1_KIND_LO=2", "-DC1_KIND_HI=3"])
 c1("intmin", "prim",
    "the pattern -2147483648 (`-n` with n = INT32_MIN) is compiled without signed overflow [NOT established: undefined behaviour in peg_compile1, reported; unit disabled]",
    [M("prim-notnchar-not-negated", "                emit_1(r, RULE_NOTNCHAR, -n);", "                emit_1(r, RULE_NOTNCHAR, n);", "NOTNCHAR")],
+   defines=["-DVC_OWN_EXIT", "-DC1_prim", "-DC1_KIND_LO=1", "-DC1_KIND_HI=1"],
    disabled_reason="fails on the pinned tree: peg_compile1.overflow.* 'arithmetic overflow on signed unary minus in -n' for (peg/compile -2147483648); benign on x86-64 (wraps to 0x80000000 = the intended operand) but undefined behaviour in C; reported")
 c1("cache", "cache",
    "a pattern found in the rule cache returns the cached index (an instruction start below the count, by INV) and emits / caches nothing; tuples are looked up in the current scope only (rawget), all other patterns through the scope chain; depth, scope and form restored",
@@ -408,16 +413,21 @@ GENERIC_MUT = [M("final-scan-dropped", "    for (i = 0; i < blen; i++)\n        
                M("truncated-program-accepted", "    if (i != blen) goto bad;", "", "does not fit|wf_peg")]
 
 
-def load(name, op, clause, mutants, lens=None, exact=False, **kw):
+def load(name, op, clause, mutants, lens=None, exact=False, tail=False, **kw):
     defs = ["-DLOAD_OP=" + op, "-DBL=16"]
     if lens:
         defs.append("-DLOAD_LENS=" + lens)
+    if tail:
+        defs += ["-DLOAD_TAIL", "-DLOAD_REJECT_ONLY"]
     defs.append("-DLOAD_TRUNC" if exact else "-DLOAD_SLACK=3")
     u = {"id": ("peg.load.exact." if exact else "peg.load.op.") + name, "props": ["C10", "C09", "C12"], "tier": "quick", "class": "bounded",
-         "bound": "one instruction of the opcode at word 0 or 2 of a program of <= 16 words (every bytecode length from 'ends inside the instruction' to 'one more instruction behind it'), operands symbolic, 0..2 constants; loops unwound 20x without unwinding assertion",
+         "bound": "one instruction of the opcode at word 0 or 2 of a program of <= 16 words (every bytecode length from 'ends inside the instruction' to 'one more instruction behind it'), operands symbolic, 0..2 constants; verifier loop unwound 6x (programs here have <= 4 instructions), slot loop 5x (14x in the .long units), without unwinding assertion",
          "clause": clause, "src": ["peg.c"], "harness": ["peg_load.c"], "entry": "h_load_op", "mode": "plain", "functions": ["peg_unmarshal"],
          "defines": defs, "replace_calls": LREPL, "remove_bodies": "cfun_peg_.*|peg_rule|peg_compile1|spec_.*|peg_marshal", "checks": STD,
-         "unwind": 20, "unwinding_assertions": False, "timeout": 300, "assumes": A_LOAD + ([] if exact else [A_SLACK]), "mutants": mutants}
+         "unwind": 20, "unwindset": {"peg_unmarshal.1": 3, "peg_unmarshal.4": 6, "peg_unmarshal.3": (14 if lens and "12" in lens else 5)}, "unwinding_assertions": False, "timeout": 300, "assumes": A_LOAD + ([] if exact else [A_SLACK]), "mutants": mutants}
+    if tail:
+        u["unwindset"] = {"peg_unmarshal.1": 3, "peg_unmarshal.3": 4, "peg_unmarshal.4": 4}
+        u["bound"] = "the opcode as the LAST word of a program of 1 or 3 words (its length operand is whatever lies behind the bytecode); verifier loop unwound 4x, slot loop 4x, without unwinding assertion"
     u.update(kw)
     units.append(u)
 
@@ -428,28 +438,35 @@ EXACT_REASON = ("fails on the pinned tree: peg_unmarshal.pointer_dereference.* '
 for name, op, wf, mut in OPS_LOAD:
     muts = ([mut] if mut else []) + GENERIC_MUT[(0 if "RULEREF" in wf else 1):]
     load(name, op, "loader case %s: accepted => wf_peg clause `%s` holds for the instruction (what peg.rule.%s assumes); an instruction that does not fit into the bytecode is rejected; header fields, array placement, has_backref" % (op, wf, name), muts)
-    if op not in ("RULE_NCHAR", "RULE_NOTNCHAR", "RULE_RANGE", "RULE_POSITION", "RULE_LINE", "RULE_COLUMN", "RULE_BACKMATCH", "RULE_SET"):
+    if op not in ("RULE_NCHAR", "RULE_NOTNCHAR", "RULE_RANGE", "RULE_POSITION", "RULE_LINE", "RULE_COLUMN", "RULE_BACKMATCH", "RULE_SET", "RULE_GETTAG"):
+        xdef = {"defines": ["-DLOAD_OP=" + op, "-DBL=16", "-DLOAD_TRUNC", "-DLOAD_REJECT_ONLY"]} if "clen" in wf else {}
         load(name, op, "loader case %s: while checking, only words INSIDE the bytecode are read (exactly-sized bytecode area) [NOT established by the pinned tree; unit disabled, reported]" % op,
-             muts, exact=True, disabled_reason=EXACT_REASON)
+             muts, exact=True, disabled_reason=EXACT_REASON, **xdef)
 VARM = [M("variadic-target-unmarked", "                    if (rule[2 + j] >= blen) goto bad;\n                    op_flags[rule[2 + j]] |= 0x1;", "                    if (rule[2 + j] >= blen) goto bad;", "wf_peg"),
         M("variadic-size-off-by-one", "                i += 2 + len;\n            }", "                i += 1 + len;\n            }", "wf_peg|does not fit|REACH")]
 for name, op in [("choice", "RULE_CHOICE"), ("sequence", "RULE_SEQUENCE")]:
-    load(name, op, "loader case %s: accepted => wf_peg clause `room >= 2 && r[1] <= room - 2 && every rule slot is an instruction start`; length operands 0..3, 12 (longer than the program) and 2^32-1" % op,
-         VARM + GENERIC_MUT, lens="0,1,2,3,12,0xFFFFFFFFu", only="C10 peg loader|REACH",
-         undecided_clauses=["memory-safety obligations of the slot loop are NOT counted here (`only`): `for j < len: rule[2 + j]` reads behind the block for a length operand larger than the program (peg.load.exact.%s, disabled, reported); the 2^32-1 case is cut by the unwinding bound" % name])
-    load(name, op, "loader case %s: the slot loop reads only words inside the bytecode [NOT established by the pinned tree; unit disabled, reported]" % op,
-         VARM, lens="0,1,2,3,12,0xFFFFFFFFu", exact=True, disabled_reason=EXACT_REASON)
+    for suffix, lens, txt in [("", "0,1,2,3", "length operands 0..3"), (".long", "12,0xFFFFFFFFu", "length operands 12 (longer than the program) and 2^32-1: always rejected")]:
+        extra = {"defines": ["-DLOAD_OP=" + op, "-DBL=16", "-DLOAD_LENS=" + lens, "-DLOAD_SLACK=3", "-DLOAD_REJECT_ONLY"]} if suffix else {}
+        load(name + suffix, op, "loader case %s: accepted => wf_peg clause `room >= 2 && r[1] <= room - 2 && every rule slot is an instruction start`; %s" % (op, txt),
+             (VARM if not suffix else []) + GENERIC_MUT[(0 if not suffix else 1):], lens=lens, only="C10 peg loader|REACH",
+             undecided_clauses=["memory-safety obligations of the slot loop are NOT counted here (`only`): `for j < len: rule[2 + j]` reads behind the block for a length operand larger than the program (peg.load.exact.%s.long, disabled, reported); the 2^32-1 case is cut by the unwinding bound" % name], **extra)
+        load(name + suffix, op, "loader case %s: the slot loop reads only words inside the bytecode; %s [NOT established by the pinned tree; unit disabled, reported]" % (op, txt),
+             VARM, lens=lens, exact=True, disabled_reason=EXACT_REASON)
 LITM = [M("literal-size-rounded-down", "                i += 2 + ((rule[1] + 3) >> 2);", "                i += 2 + (rule[1] >> 2);", "wf_peg|does not fit")]
 load("literal", "RULE_LITERAL", "loader case RULE_LITERAL: accepted => `room >= 2 && r[1] <= 4*len && 2 + ((r[1]+3)>>2) <= room` (the data words of the literal lie inside the bytecode: the matcher's memcmp reads them); length operands 0, 1, 4, 5, 8, 40",
      LITM + GENERIC_MUT[1:], lens="0,1,4,5,8,40")
 load("literal.wrap", "RULE_LITERAL", "loader case RULE_LITERAL with a length operand of 2^32-3 .. 2^32-1: rejected (the size computation (len + 3) >> 2 must not wrap) [NOT established by the pinned tree: accepted as a 2-word instruction; unit disabled, reported]",
      LITM, lens="0xFFFFFFFDu,0xFFFFFFFFu",
      disabled_reason="fails on the pinned tree: load_case.assertion 'accepted => the wf_peg clause of this opcode holds': (rule[1] + 3) >> 2 wraps to 0 for rule[1] >= 2^32-3, the literal is accepted with NO data words although its length word says 4 GiB: (unmarshal \"\\xd9\\xcf\\x08core/peg\\x02\\x00\\x00\\xcd\\xff\\xff\\xff\\xff\") returns a peg; on LP64 the matcher's `text + len > text_end` test rejects every text (no crash), on a 32-bit build the pointer wraps and memcmp runs over 4 GiB; wf_peg clause of RULE_LITERAL violated; reported")
-load("literal", "RULE_LITERAL", "loader case RULE_LITERAL: only words inside the bytecode are read [NOT established by the pinned tree: rule[1] of a RULE_LITERAL in the last word; unit disabled, reported]",
-     LITM, lens="0,1,4,5,8,40", exact=True, disabled_reason=EXACT_REASON)
+load("literal", "RULE_LITERAL", "loader case RULE_LITERAL with its length word inside the bytecode: only words INSIDE the bytecode are read while checking (exactly-sized bytecode area, no constants); the last-word case is peg.load.exact.literal.tail",
+     LITM + GENERIC_MUT[1:], lens="0,1,4,5,8,40", exact=True)
+TAILM = [M("truncated-program-accepted", "    if (i != blen) goto bad;", "", "does not fit|wf_peg")]
+for name, op in [("literal", "RULE_LITERAL"), ("choice", "RULE_CHOICE"), ("sequence", "RULE_SEQUENCE")]:
+    load(name + ".tail", op, "loader case %s as the last word of the program (the length operand lies behind the bytecode): always rejected" % op, TAILM, tail=True)
+    load(name + ".tail", op, "loader case %s as the last word: the length operand behind the bytecode is not read [NOT established by the pinned tree; unit disabled, reported]" % op, TAILM, tail=True, exact=True, disabled_reason=EXACT_REASON)
 load("unknown", "RULE_ONLY_TAGS + 1", "loader: an opcode beyond the last known one is rejected wherever it stands (the matcher's switch has no default case that returns)",
      [M("unknown-opcode-skipped", "            default:\n                goto bad;\n        }\n    }\n\n    /* last instruction cannot overflow */", "            default:\n                i += 2;\n                break;\n        }\n    }\n\n    /* last instruction cannot overflow */", "wf_peg")],
-     reach=False, min_obligations=3)
+     defines=["-DLOAD_OP=RULE_ONLY_TAGS + 1", "-DBL=16", "-DLOAD_SLACK=3", "-DLOAD_REJECT_ONLY"])
 
 FR = {"id": "peg.load.frame", "props": ["C10", "C09", "C12"], "tier": "quick", "class": "bounded",
       "bound": "programs of 0..5 words ([RULE_NCHAR n] pairs), 0..2 constants",
